@@ -4,7 +4,7 @@
 //        wave = comma separated behaviours, one request each, all requests of a wave issued at once; request i asks
 //        for /<i>/<behaviour> and the server answers with body "resp-<i>":
 //          a at once, d after 60 ms, b byte-dribbled, c chunked, x with Connection: close and then closes,
-//          n never, h half an answer and then nothing, l late (time-out + 300 ms), e delayed 250 ms (used in wave 2 to be in flight when a late response arrives)
+//          n never, h half an answer and then nothing, l late (time-out + 300 ms), e delayed 250 ms, g delayed 70% of the time-out (used in wave 2 to be in flight when a late response arrives)
 //        wave 2 is issued <gap ms> (default time-out + 100 ms) after wave 1
 //     -> K r=<outcome per request: F<i of the body received> | R rejected | P still pending> twice=<promises settled twice>
 //            accepted=<connections the server accepted in total> limit=<configured connections per host>
@@ -119,6 +119,7 @@ struct Server
             case 'a': pv::send_all(c, plain); break;
             case 'd': nap(60); pv::send_all(c, plain); break;
             case 'e': nap(250); pv::send_all(c, plain); break;
+            case 'g': nap(timeout_ms * 7 / 10); if (!gone) pv::send_all(c, plain); break;
             case 'b':
                 for (size_t i = 0; i < plain.size(); i += 3)
                 {
